@@ -357,6 +357,11 @@ type bld struct {
 	post func() []Obj // optional: extra objects computed after the "after" snapshot
 	seq  *seqState    // non-nil in sequence mode (seq.go): the InSitu struct persists across calls
 	rets []interface{} // objects the call returned (sequence mode)
+	// stream O (opts.go): how hold() hands over the option list
+	holdMode int           // 0 as built, 1 caller-held slice with spare capacity, 2 literal (len == cap), 3 reuse
+	spare    int
+	reuse    []interface{}
+	held     []interface{}
 }
 
 // persist returns the InSitu struct to pass: in sequence mode the one created
